@@ -152,8 +152,78 @@ def units(tier, seed):
             for n1 in SUB_POOL:
                 us.append(("subprocess", ("hyper", hm, loc, False, n1), tier,
                            seed))
+    # overwrite='improved' across the two ways an entry gets written
+    # (search and update_from_tree), in memory and on disk
+    for kind in ("rgreedy-hot", "hyper"):
+        for loc in ("memory", "disk"):
+            us.append(("improved-mixed", (kind, loc), tier, seed))
     us.sort(key=lambda u: u[0] != "subprocess")
     return us
+
+
+def work_improved_mixed(cfg, seed, root, res):
+    """every order of {search, update_from_tree(optimal tree),
+    update_from_tree(poor tree)} of length <=3 on one optimizer with
+    overwrite='improved': the REAL cost of the stored contraction order
+    (flops of the tree rebuilt from the stored path) never goes up"""
+    import cotengra as ctg
+
+    kind, loc = cfg
+    for lseed in range(4):
+        inputs, output, _, sd = ctg.utils.lattice_equation(
+            [3, 3], d_min=2, d_max=4, seed=lseed)
+        good = ctg.array_contract_tree(inputs, output, sd,
+                                       optimize="optimal")
+        n = len(inputs)
+        poor = ctg.ContractionTree.from_path(
+            inputs, output, sd,
+            path=[(0, 1)] * (n - 1))
+        events = ("search", "update-good", "update-poor")
+        for L in (2, 3):
+            for hist in itertools.product(events, repeat=L):
+                d = tempfile.mkdtemp(prefix="imp-", dir=root) \
+                    if loc == "disk" else None
+                if kind == "rgreedy-hot":
+                    opt = ctg.ReusableRandomGreedyOptimizer(
+                        max_repeats=1, seed=5, temperature=(5.0, 5.0),
+                        overwrite="improved", accel=False, parallel=False,
+                        directory=d)
+                else:
+                    opt = ctg.ReusableHyperOptimizer(
+                        methods=["greedy"], max_repeats=1, optlib="random",
+                        parallel=False, overwrite="improved", directory=d)
+                res.evals += 1
+                res.transitions += L
+                res.key((kind, loc, lseed, hist))
+                costs = []
+                bad = []
+                for ev in hist:
+                    try:
+                        if ev == "search":
+                            opt.search(inputs, output, sd)
+                        elif ev == "update-good":
+                            opt.update_from_tree(good, overwrite="improved")
+                        else:
+                            opt.update_from_tree(poor, overwrite="improved")
+                        h, missing = opt.hash_query(inputs, output, sd)
+                        con = opt._cache[h]
+                        costs.append(ctg.ContractionTree.from_path(
+                            inputs, output, sd,
+                            path=con["path"]).total_flops())
+                    except Exception as e:
+                        bad.append(("raises:" + type(e).__name__,
+                                    repr(e)[:200]))
+                        break
+                if not bad and any(b > a for a, b in zip(costs, costs[1:])):
+                    bad.append(("improved-made-stored-tree-worse", hist,
+                                costs))
+                if bad:
+                    res.violation(
+                        f"reusable:{bad[0][0]}:{kind}",
+                        {"kind": "improved-mixed", "cfg": cfg,
+                         "lattice_seed": lseed, "history": hist}, bad[:2],
+                        max_per_unit=2)
+    res.sample({"kind": "improved-mixed", "cfg": cfg}, cap=1)
 
 
 class World:
@@ -235,11 +305,9 @@ def check_tree(tree, q):
 
 
 def score_of(tree, kind="hyper"):
-    """the figure the optimizer stores: the objective's score for the hyper
-    kinds, log10(total flops) for the random-greedy one"""
+    """the figure the optimizer stores: the score of the tree under its
+    default objective"""
     try:
-        if kind == "rgreedy":
-            return math.log10(tree.total_flops())
         return float(tree.get_score())
     except Exception:
         return None
@@ -410,6 +478,9 @@ def work(unit):
     names = list(P)
     root = tempfile.mkdtemp(prefix="verif-c14-")
     try:
+        if kind == "improved-mixed":
+            work_improved_mixed(cfg, seed, root, res)
+            return res
         if kind == "hist":
             depth = 3 if tier == "quick" else 4
             # full depth on a core pool, depth 2 on the whole pool
